@@ -468,7 +468,7 @@ fn build(_ctx: &Ctx, tier: Tier, seed: u64) -> Vec<Job<'static>> {
         }),
     };
     let j2 = Job {
-        label: "two real daemons under wild loss/dup/delay on both directions (NAK rounds race with retransmissions)".into(),
+        label: "two real daemons under wild loss/dup/delay on both directions (NAK rounds race with retransmissions), a quarter with a suspend/resume of the receiving user inside the first pass".into(),
         n: n_pair,
         gen: Box::new(move |i| {
             let mut rng = Rng::new(mix(seed ^ 0xC08C, i as u64));
@@ -482,6 +482,13 @@ fn build(_ctx: &Ctx, tier: Tier, seed: u64) -> Vec<Job<'static>> {
             sc.script = gen::wild_script(&mut rng, &sc, &prof, 0, 1);
             if rng.chance(1, 4) {
                 sc.script.push(Entry::User { ent: 0, op: UserOp::PromptNak, put: 0, at: Trigger::AfterPdu { src: 0, dst: 1, n: rng.below(prof.fwd.len() as u64 + 1) as u32 } });
+            }
+            // the receiving user suspends and resumes in the middle of the first pass (round 7): a resume
+            // is no licence for an unsolicited NAK under the deferred procedure
+            if rng.chance(1, 4) {
+                let at = Trigger::AfterPdu { src: 0, dst: 1, n: rng.below(prof.fwd.len() as u64) as u32 };
+                sc.script.push(Entry::User { ent: 1, op: UserOp::Suspend, put: 0, at: at.clone() });
+                sc.script.push(Entry::User { ent: 1, op: UserOp::Resume, put: 0, at: Trigger::Plus(Box::new(at), *rng.pick(&[0u64, 1000, 20_000, 300_000])) });
             }
             sc
         }),
